@@ -1,5 +1,5 @@
 #!/bin/bash
-# MANIFEST.setup_cmd: warm the Go build cache for both harness flavours (cover, race), offline.
+# MANIFEST.setup_cmd: warm the Go build cache for the three harness flavours (plain, cover, race), offline.
 set -e
 VERIF="$(cd "$(dirname "${BASH_SOURCE[0]}")" && pwd)"
 export GOFLAGS=-mod=mod GOPROXY=off GOSUMDB=off GOTOOLCHAIN=local
@@ -7,6 +7,7 @@ mkdir -p "$VERIF/.build/setup"
 cd "$VERIF/harness"
 PK=$(cd /repo && go list ./... | grep -v /examples | grep -v /testutils | tr '\n' ',' | sed 's/,$//')
 go build -cover -covermode=set "-coverpkg=$PK,godsverif/cmd/vmon" -o "$VERIF/.build/setup/vmon-cover" ./cmd/vmon
+go build -o "$VERIF/.build/setup/vmon-plain" ./cmd/vmon
 go build -race -o "$VERIF/.build/setup/vmon-race" ./cmd/vmon
 "$VERIF/.build/setup/vmon-race" list > /dev/null
 echo "setup ok"
